@@ -247,6 +247,11 @@ func (conn *Conn) logFcall(fc *Fcall) {
 		f := new(Fcall)
 		*f = *fc
 		f.Pkt = nil
+		if fc.Data != nil {
+			/* the payload lives in a buffer that is used again */
+			f.Data = make([]byte, len(fc.Data))
+			copy(f.Data, fc.Data)
+		}
 		conn.Srv.Log.Log(f, conn, DbgLogFcalls)
 	}
 }
